@@ -32,7 +32,8 @@ func (self ValueRange) Display() (string, *VmInterrupt) {
 
 func (self ValueRange) IsEqual(other Value) (bool, *VmInterrupt) {
 	otherRange := other.(ValueRange)
-	return *self.Start == *otherRange.Start && *self.End == *otherRange.End, nil
+	return *self.Start == *otherRange.Start && *self.End == *otherRange.End &&
+		self.EndIsInclusive == otherRange.EndIsInclusive, nil
 }
 
 func (self ValueRange) Fields() (map[string]*Value, *VmInterrupt) {
